@@ -474,3 +474,85 @@ Proof.
   rewrite !rpp_skip_eq. rewrite skipn_app.
   replace (N.to_nat 32 - length f9)%nat with 0%nat by (unfold rp_len in Hc; lia). reflexivity.
 Qed.
+
+Section CONVERGE.
+Variable summ1 : N -> list N -> wm_sentry.
+Variable summN : bool -> list wm_sentry -> wm_sentry.
+
+Lemma rpp_finish_fields : forall w d e,
+  rp_end_off (rp_finish w d e) = e /\ rp_after (rp_finish w d e) = rp_file (rp_w_io w) /\ rp_did (rp_finish w d e) = d.
+Proof.
+  intros w d e. unfold rp_finish.
+  pose proof (rpp_scan_fsr_sample_id_frame (rp_c w)) as F. destruct (rp_scan_fsr_sample_id (rp_c w)) as [c1 rc]. cbn [fst] in F.
+  destruct F as (F1 & _). repeat split. exact F1.
+Qed.
+
+(* the result of a successful repair, in terms of the state w9 before the END chunk *)
+Lemma rpp_repair_end_success : forall w9,
+  rp_flen (rp_w_io w9) = rp_len (rp_file (rp_w_io w9)) ->
+  let r := rp_repair_end w9 in
+  rp_rc r = 0 -> 32 <= rp_end_off r -> rp_end_off r mod 8 = 0 -> rp_end_off r + 32 < rp_two63 ->
+  rp_end_off r = rp_flen (rp_w_io w9) /\ rp_len (rp_after r) = rp_end_off r + 32 /\ rp_ends_with_end (rp_after r) = true /\
+  exists fe, rp_take 32 (rp_after r) = wm_file_header_bytes fe.
+Proof.
+  intros w9 Hc. cbv zeta. destruct (rpp_repair_end_eq w9) as (w11 & A & _ & _ & D). cbv zeta in D.
+  destruct D as [D | (rc & Hrc & D)]; rewrite D; [| intros H; exfalso; apply Hrc; exact H].
+  destruct (rpp_finish_fields w11 true (rp_flen (rp_w_io w9))) as (E1 & E2 & _). rewrite E1, E2, A.
+  intros _ H32 H8 H63.
+  destruct (rpp_end_state_file w9 Hc H32) as (h & fe & Ht & Hl & Hfile). rewrite Hfile.
+  set (f9 := rp_file (rp_w_io w9)) in *. set (n9 := rp_flen (rp_w_io w9)) in *.
+  destruct (rpp_end_header_ok h Ht Hl) as (B32 & Bc & Bt & Bl).
+  assert (F32 : rp_len (wm_file_header_bytes fe) = 32).
+  { unfold wm_file_header_bytes, rp_len. now rewrite fm_encode_file_header_length. }
+  assert (LEN : rp_len (wm_file_header_bytes fe ++ rp_skip 32 f9 ++ fm_encode_chunk_header h) = n9 + 32).
+  { rewrite !rpp_len_app, rpp_len_skip, F32, B32. lia. }
+  split; [reflexivity |]. split; [exact LEN |]. split.
+  - unfold rp_ends_with_end. cbv zeta. rewrite LEN. unfold SIZEOF_chunk_header.
+    replace (n9 + 32 - 32) with (rp_len (wm_file_header_bytes fe ++ rp_skip 32 f9)) by (rewrite rpp_len_app, rpp_len_skip, F32; lia).
+    rewrite app_assoc, rpp_skip_app_exact. rewrite Bc, Bt, Bl.
+    replace (64 <=? n9 + 32) with true by (symmetry; apply N.leb_le; lia).
+    replace (n9 + 32 <? rp_two63) with true by (symmetry; apply N.ltb_lt; exact H63).
+    replace ((n9 + 32) mod 8 =? 0) with true by (symmetry; apply N.eqb_eq; lia).
+    reflexivity.
+  - exists fe. unfold rp_take. apply firstn_app_exact. unfold rp_len in F32. lia.
+Qed.
+
+(* C19 part 2: after a successful repairing open the file ends with a CRC-valid END chunk header at its very
+   end and a second open does not enter the repair branch: no events, same file.  The three conditions on
+   rp_end_off (the length of the file before the END chunk was appended) hold for every file the writer can have
+   left; they are needed because the theorem is about EVERY byte string *)
+Theorem rpp_repair_converges : forall f,
+  let r := rp_open summ1 summN f in
+  rp_rc r = 0 -> rp_did r = true ->
+  32 <= rp_end_off r -> rp_end_off r mod 8 = 0 -> rp_end_off r + 32 < rp_two63 ->
+  rp_len (rp_after r) = rp_end_off r + 32 /\ rp_ends_with_end (rp_after r) = true /\
+  (exists fe, rp_take 32 (rp_after r) = wm_file_header_bytes fe) /\
+  let r2 := rp_open summ1 summN (rp_after r) in
+  rp_did r2 = false /\ rp_events r2 = [] /\ rp_after r2 = rp_after r.
+Proof.
+  intros f. cbv zeta.
+  set (Q := fun r : rp_result => rp_rc r = 0 -> 32 <= rp_end_off r -> rp_end_off r mod 8 = 0 -> rp_end_off r + 32 < rp_two63 ->
+              rp_len (rp_after r) = rp_end_off r + 32 /\ rp_ends_with_end (rp_after r) = true /\
+              (exists fe, rp_take 32 (rp_after r) = wm_file_header_bytes fe) /\
+              rp_did (rp_open summ1 summN (rp_after r)) = false /\ rp_events (rp_open summ1 summN (rp_after r)) = [] /\
+              rp_after (rp_open summ1 summN (rp_after r)) = rp_after r).
+  assert (G : rp_did (rp_open summ1 summN f) = true -> Q (rp_open summ1 summN f)).
+  { unfold rp_open. pose proof (rpp_scan_cases f) as S.
+    destruct (rp_scan f) as [[c rc] | c]; [intros D; discriminate D |].
+    destruct S as (c3 & _ & (I1 & I2 & _) & E & Hf).
+    assert (Hn : rp_flen (rp_io_ c) = rp_len f).
+    { pose proof (rpp_rd_chunk_end_frame (rp_io_ c3)) as F. rewrite E in F. cbn [fst] in F. destruct F as (_ & F2 & _). congruence. }
+    assert (C0 : rpp_coh f (rp_w0 c)) by (unfold rpp_coh; cbn; rewrite Hf, Hn; split; reflexivity).
+    destruct (fm_tag (wm_ck_hdr (rp_cur (rp_io_ c))) =? JLS_TAG_END).
+    { intros D. destruct (rpp_finish_fields (rp_w0 c) false 0) as (_ & _ & D'). rewrite D' in D. discriminate D. }
+    intros _. apply rpp_repair_leaves.
+    - intros w rc _ Hrc H. exfalso. apply Hrc. exact H.
+    - intros w rc _ Hrc H. exfalso. apply Hrc. exact H.
+    - intros w9 Hw. destruct (Hw f C0) as (Hc & _). unfold Q. intros R0 H32 H8 H63.
+      destruct (rpp_repair_end_success w9 Hc R0 H32 H8 H63) as (_ & L & EE & FH).
+      split; [exact L |]. split; [exact EE |]. split; [exact FH |].
+      apply rpp_ends_with_end_quiet. exact EE. }
+  intros R0 D H32 H8 H63. destruct (G D R0 H32 H8 H63) as (A & B & C & D2 & E2 & F2).
+  repeat split; assumption.
+Qed.
+End CONVERGE.
